@@ -48,7 +48,7 @@ func zz06Flag(bitmap []byte, i int) bool {
 //
 //zz:opt loop=24 require=accepted,rejected
 //zz:quick HMAX=128
-//zz:thorough HMAX=0
+//zz:thorough HMAX=0 budget=1200s
 //zz:stub (*github.com/supranational/blst/bindings/go.P1Affine).Uncompress zz06StubP1Uncompress
 //zz:stub (*github.com/supranational/blst/bindings/go.P2Affine).Uncompress zz06StubP2Uncompress
 //zz:stub (*github.com/supranational/blst/bindings/go.P2Affine).FastAggregateVerify zz06StubFastAggregateVerify
